@@ -751,6 +751,16 @@ func (r *c06Runner) runCase(p *c06Prog, args *[3]Args, verbose bool) bool {
 	} else {
 		real = c06RunReal(seq)
 		oracle, desc = c06Compare(real, ref.obs)
+		if oracle == "" {
+			// History: a built sequence serves every query. The harness plugins keep
+			// nothing between queries, so a second query through the same built
+			// sequence must be handled exactly like the first one.
+			if again := c06RunReal(seq); true {
+				if o2, d2 := c06Compare(again, ref.obs); o2 != "" {
+					oracle, desc, real = "second-run-"+o2, "second query through the same built sequence: "+d2, again
+				}
+			}
+		}
 	}
 	if verbose {
 		fmt.Printf("program:\n%s", c06ProgText(p))
